@@ -2,68 +2,68 @@
 From Coq Require Import ZArith NArith PArith List Bool Permutation.
 From Cohdl Require Import Vhdl.Value Vhdl.Syntax Vhdl.Sem Vhdl.Drivers Models.Usage Models.UsageProofs.
 
-(** [C07_check_sound] is FALSE of the faithful (as-coded) model: a sequential context is visited together
-    with its hoisted always block under one [current_ctx] *)
-Theorem C07_check_refuted : exists D root, check D = Accept /\ drivers D root = 2.
-Proof. exact check_refuted. Qed.
-Print Assumptions C07_check_refuted.
-
-Theorem C07_check_refuted_users : exists D root, check D = Accept /\ users D root = 2.
-Proof. exact check_refuted_users. Qed.
-Print Assumptions C07_check_refuted_users.
-
-Theorem C07_check_refuted_input : exists D, check D = Accept /\ no_input_writtenb D = false.
-Proof. exact check_refuted_input. Qed.
-Print Assumptions C07_check_refuted_input.
-
-(** ... and PROVED for the corrected visiting discipline ([check_fixed]: the always block is a context of
-    its own, variables are rejected inside it, instance outputs may not drive input ports) *)
-Theorem C07_check_sound : forall D, check_fixed D = Accept ->
+(** the usage check of the CURRENT tree ([check]: the always block is a context of its own, variables are
+    rejected inside it, instance outputs may not drive input ports - fix commits 8d3d526, 615f499, f68d635) *)
+Theorem C07_check_sound : forall D, check D = Accept ->
   forall root, drivers D root <= 1 /\ (is_var_or_temp D root -> users D root <= 1) /\ no_input_written D.
-Proof. exact check_fixed_sound. Qed.
+Proof. exact check_sound. Qed.
 Print Assumptions C07_check_sound.
 
 Example C07_check_sound_nonvacuous :
-  check_fixed sample_ok = Accept /\ check sample_ok = Accept
+  check sample_ok = Accept /\ check_old sample_ok = Accept
   /\ drivers sample_ok 2 = 1 /\ drivers sample_ok 6 = 1 /\ users sample_ok 3 = 1.
-Proof. exact check_fixed_sound_nonvacuous. Qed.
+Proof. exact check_sound_nonvacuous. Qed.
 Print Assumptions C07_check_sound_nonvacuous.
 
 (** the converse reading: a conflicting design is rejected *)
 Theorem C07_check_complete : forall D root,
-  1 < drivers D root \/ 1 < users D root \/ no_input_writtenb D = false -> check_fixed D <> Accept.
-Proof. exact check_fixed_complete. Qed.
+  1 < drivers D root \/ 1 < users D root \/ no_input_writtenb D = false -> check D <> Accept.
+Proof. exact check_complete. Qed.
 Print Assumptions C07_check_complete.
 
 Example C07_check_complete_nonvacuous :
   1 < drivers witness 1 /\ 1 < users witness_var 2 /\ no_input_writtenb witness_inst = false.
-Proof. exact check_fixed_complete_nonvacuous. Qed.
+Proof. exact check_complete_nonvacuous. Qed.
 Print Assumptions C07_check_complete_nonvacuous.
 
-Theorem C07_fixed_rejects_witnesses :
-  check_fixed witness = Reject RMultiWrite /\ check_fixed witness_var = Reject RVarInConc
-  /\ check_fixed witness_inst = Reject RInputWritten.
-Proof. exact check_fixed_rejects_witnesses. Qed.
-Print Assumptions C07_fixed_rejects_witnesses.
-
 (** the executable spec evaluated by the harness on every placement is implied by acceptance *)
-Theorem C07_accept_conflict_free : forall D, check_fixed D = Accept -> conflict_freeb D = true.
-Proof. exact check_fixed_conflict_free. Qed.
+Theorem C07_accept_conflict_free : forall D, check D = Accept -> conflict_freeb D = true.
+Proof. exact check_conflict_free. Qed.
 Print Assumptions C07_accept_conflict_free.
 
-
-(** no over-rejection in the corrected model: conflict free + the context-local rules of ConvertInstance
-    (no variable in a concurrent context / always block, temporaries written before read) => accepted *)
+(** no over-rejection: conflict free + the context-local rules of ConvertInstance (no variable in a concurrent
+    context / always block, temporaries written before read) => accepted *)
 Theorem C07_check_exact : forall D,
   (forall root, drivers D root <= 1 /\ users D root <= 1) -> no_input_written D ->
-  locally_ok Fixed D = true -> check_fixed D = Accept.
-Proof. exact check_fixed_exact. Qed.
+  locally_ok Current D = true -> check D = Accept.
+Proof. exact check_exact. Qed.
 Print Assumptions C07_check_exact.
 
 Example C07_check_exact_nonvacuous :
-  (forall root, drivers sample_ok root <= 1 /\ users sample_ok root <= 1) /\ locally_ok Fixed sample_ok = true.
-Proof. exact check_fixed_exact_nonvacuous. Qed.
+  (forall root, drivers sample_ok root <= 1 /\ users sample_ok root <= 1) /\ locally_ok Current sample_ok = true.
+Proof. exact check_exact_nonvacuous. Qed.
 Print Assumptions C07_check_exact_nonvacuous.
+
+(** regressions: the three designs the OLD discipline accepted (always-block writer + enclosing body, variable read
+    by an always block, instance output on an input port) are rejected by the current check ... *)
+Example C07_check_rejects_witnesses :
+  check witness = Reject RMultiWrite /\ check witness_var = Reject RVarInConc
+  /\ check witness_inst = Reject RInputWritten.
+Proof. exact check_rejects_witnesses. Qed.
+Print Assumptions C07_check_rejects_witnesses.
+
+(** ... and were accepted by the old one, for which the soundness statement is false *)
+Example C07_old_discipline_refuted : exists D root, check_old D = Accept /\ drivers D root = 2.
+Proof. exact check_old_refuted. Qed.
+Print Assumptions C07_old_discipline_refuted.
+
+Example C07_old_discipline_refuted_users : exists D root, check_old D = Accept /\ users D root = 2.
+Proof. exact check_old_refuted_users. Qed.
+Print Assumptions C07_old_discipline_refuted_users.
+
+Example C07_old_discipline_refuted_input : exists D, check_old D = Accept /\ no_input_writtenb D = false.
+Proof. exact check_old_refuted_input. Qed.
+Print Assumptions C07_old_discipline_refuted_input.
 
 (** emitted text: the order in which the statements' writes reach [Sem.commit] does not matter.
     PARTIAL: proved for [single_driver_roots] (different statements assign different signals);
